@@ -259,6 +259,18 @@ class FileWalk:
                 k = self.kind(e.func.value, fn, depth + 1)
                 if k in ("gen", "val"):
                     return "val"
+                # self.<helper>() : a method of the same class all of whose return values are gen / val (e.g. a helper that draws a child seed)
+                if isinstance(e.func.value, ast.Name) and e.func.value.id == "self" and fn is not None:
+                    cls = fn
+                    while cls in self.parent and not isinstance(cls, ast.ClassDef):
+                        cls = self.parent[cls]
+                    if isinstance(cls, ast.ClassDef):
+                        for mth in cls.body:
+                            if isinstance(mth, (ast.FunctionDef, ast.AsyncFunctionDef)) and mth.name == e.func.attr:
+                                rets = [r.value for r in ast.walk(mth) if isinstance(r, ast.Return)]
+                                ks = {self.kind(r, mth, depth + 1) for r in rets}
+                                if rets and ks <= {"gen", "val"}:
+                                    return "val"
             if d in ("int", "float", "abs", "min", "max") and e.args:
                 ks = {self.kind(a, fn, depth + 1) for a in e.args}
                 return "val" if ks <= {"val", "gen"} else None
